@@ -23,6 +23,7 @@ bool LoadScenario(const js::J& j, Scenario* s, string* err) {
   s->builddir = j["builddir"].str();
   s->depth = (int)j["depth"].num(2);
   s->dev_bound = (int)j["dev_bound"].num(-1);
+  s->alloc_descending = j["alloc_order"].str() == "descending";
   for (auto& t : j["tags"].a) s->tags.insert(t.s);
   for (const char* vkey : {"variants", "twin_variants"})
   for (auto& vj : j[vkey].a) {
